@@ -183,6 +183,11 @@ class YAMLPath:
         ):
             self.original = path_now[
                 0:len(path_now) - len(removable_segment) + 1]
+        else:
+            # The popped segment is not spelled the way it is printed (it is
+            # demarcated, padded, or bracketed); keep the other segments.
+            self.original = YAMLPath._stringify_yamlpath_segments(
+                segments, self.separator)
 
         return popped_segment
 
